@@ -314,7 +314,7 @@ Section P.
     (nl = true -> s_lo V s = ninf /\ s_hi V s = pinf).
   Proof.
     unfold derive_mean. intro E.
-    destruct (class_of V q n) as [cls|]; [|discriminate].
+    destruct (lookup_class V q n) as [cls|]; [|discriminate].
     destruct (last_path V q n) as [p|]; [|discriminate].
     destruct (cfg_name p) as [name|e]; [|discriminate].
     destruct (lookup_nat q specs) as [old|]; [|discriminate].
